@@ -82,6 +82,12 @@ func allC05Cells(seed int) []c05Cell {
 								if api == "ssnap" && (i+seed)%7 == 0 && state == "equal" {
 									c.Val, c.OldVal = "", "was not empty"
 								}
+								if (api == "snap" || api == "ssnap") && (i+seed)%6 == 5 {
+									c.Val = []string{"---", "---\n", ""}[(i+seed)/6%3] // a markdown rule / nothing at all is a value too
+								}
+								if (api == "snap" || api == "ssnap") && (i+seed)%6 == 2 {
+									c.OldVal = []string{"---", "", "---\n---"}[(i+seed)/6%3]
+								}
 								if c.OldVal == c.Val {
 									c.OldVal = c.Val + "x"
 								}
